@@ -274,8 +274,14 @@ func c04PositionProgs() []*Prog {
 				add(t+"/assign-op-const/"+op+k, []Param{{"a", t}}, t, fmt.Sprintf("\tx := a\n\tx %s= %s\n\treturn x\n", op, k), "")
 			}
 			// constant adoption: parameter, result, field, element, map value
+			reveal := func(x string) string { // an expression whose value shows whether x has type t
+				if t == "float64" {
+					return x + "/2"
+				}
+				return x + "/2 + " + x + "*" + x
+			}
 			add(t+"/adopt/"+k, []Param{{"a", t}}, t,
-				fmt.Sprintf("\tp := &H{v: %s}\n\ts := []%s{%s, a}\n\tm := map[string]%s{\"k\": %s}\n\tp.v += a\n\ts[0] += a\n\tm[\"k\"] += a\n\treturn id(%s) + a + p.v + s[0] + m[\"k\"] + konst()\n", k, t, k, t, k, k),
+				fmt.Sprintf("\tp := &H{v: %s}\n\ts := []%s{%s, a}\n\tm := map[string]%s{\"k\": %s}\n\tn := map[int]%s{1: a}\n\tp.v += a\n\ts[0] += a\n\tm[\"k\"] += a\n\tm[\"k\"] = %s\n\tn[1] = %s\n\ts[1] = %s\n\tp.v = %s\n\tm[\"k\"] = %s\n\tn[1] = %s\n\ts[1] = %s\n\tp.v = %s\n\treturn id(%s) + a + p.v + s[0] + s[1] + m[\"k\"] + n[1] + konst()\n", k, t, k, t, k, t, k, k, k, k, reveal("m[\"k\"]"), reveal("n[1]"), reveal("s[1]"), reveal("p.v"), k),
 				fmt.Sprintf("type H struct {\n\tv %s\n}\n\nfunc id(x %s) %s {\n\treturn x + x\n}\n\nfunc konst() %s {\n\treturn %s\n}\n\n", t, t, t, t, k))
 		}
 		for _, s := range types5 {
